@@ -52,6 +52,10 @@ type NeoCache struct {
 
 	votesChanged   bool
 	nextValidators keys.PublicKeys
+	// replacedValidators is the validators list nextValidators held before
+	// OnPersist of the first block of an epoch replaced it, i.e. the signers
+	// of that block. It's used within the same block's OnPersist only.
+	replacedValidators keys.PublicKeys
 	// newEpochNextValidators contains cached next block newEpochNextValidators. This list is updated once
 	// per dBFT epoch in PostPersist of the last block in the epoch if candidates
 	// votes ratio has been changed or register/unregister operation was performed
@@ -146,6 +150,7 @@ func copyNeoCache(src, dst *NeoCache) {
 	// Can safely omit copying because the new array is created each time
 	// newEpochNextValidators list, nextValidators and committee are updated.
 	dst.nextValidators = src.nextValidators
+	dst.replacedValidators = src.replacedValidators
 	dst.committee = src.committee
 	dst.committeeHash = src.committeeHash
 	dst.newEpochNextValidators = src.newEpochNextValidators
@@ -479,6 +484,7 @@ func (n *NEO) OnPersist(ic *interop.Context) error {
 			}
 		}
 
+		cache.replacedValidators = cache.nextValidators
 		cache.nextValidators = cache.newEpochNextValidators
 		cache.committee = cache.newEpochCommittee
 		cache.committeeHash = cache.newEpochCommitteeHash
@@ -1407,6 +1413,14 @@ func (n *NEO) computeCommitteeMembers(blockHeight uint32, d *dao.Simple) (keys.P
 func (n *NEO) getNextBlockValidators(ic *interop.Context, _ []stackitem.Item) stackitem.Item {
 	result := n.GetNextBlockValidatorsInternal(ic.DAO)
 	return pubsToArray(result)
+}
+
+// GetReplacedValidatorsInternal returns the validators list that was in effect
+// before the current block's OnPersist started a new epoch (the signers of the
+// current block), nil if there was no replacement yet.
+func (n *NEO) GetReplacedValidatorsInternal(d *dao.Simple) keys.PublicKeys {
+	cache := d.GetROCache(n.ID).(*NeoCache)
+	return cache.replacedValidators.Copy()
 }
 
 // GetNextBlockValidatorsInternal returns next block validators.
